@@ -241,6 +241,44 @@ def strip_read(s):
     return s
 
 
+def replay_whole(ck, r, hv, har, d):
+    """replay of a finding that is a whole binary: an I/O program (binary_hex, simin, console) against the device model,
+    or a kept binary + input against the ISA run"""
+    if 'binary_hex' in r and 'simin' in r:
+        dd = os.path.join(d, 'replay_io')
+        os.makedirs(dd)
+        open(os.path.join(dd, 'p.bin'), 'wb').write(bytes.fromhex(r['binary_hex']))
+        for fk, content in r['simin'].items():
+            open(os.path.join(dd, 'simin%s' % fk), 'wb').write(bytes(content))
+        cons = bytes(r.get('console', []))
+        hexsim_exe, lg = vlib.repo_tool('hexsim')
+        rcm, om, em = run3([hv, 'c02iorun', 'p.bin', '100000'], cwd=dd, input=cons, timeout=120)
+        mod = om.decode().strip().split('\n')
+        want_rc = int(dict(x.split('=') for x in mod[0].split()[2:])['rc']) & 0xff
+        want_out = bytes(int(x) for x in mod[1].split()[2:])
+        want_files = {int(l.split()[1]): bytes(int(x) for x in l.split()[2:]) for l in mod if l.startswith('FILE ')}
+        rcr, orr, er = run3([hexsim_exe, 'p.bin'], cwd=dd, input=cons, timeout=60)
+        got_files = {fk: open(os.path.join(dd, 'simout%d' % fk), 'rb').read() for fk in range(8)
+                     if os.path.exists(os.path.join(dd, 'simout%d' % fk)) and os.path.getsize(os.path.join(dd, 'simout%d' % fk))}
+        ck.cov['evaluations'] += 1
+        if rcr != want_rc or orr != want_out or got_files != want_files:
+            ck.violation('hexsim on the replayed I/O program: status %d console %r files %s; the device model gives status %d console %r files %s'
+                         % (rcr, orr[:30], got_files, want_rc, want_out[:30], want_files), dict(r), tags={'kind': 'io-program'})
+    elif 'binary' in r and os.path.exists(r['binary']):
+        ip = os.path.join(d, 'in.bin')
+        open(ip, 'wb').write(bytes(r.get('input', [])))
+        rc1, o1, e1 = run3([hv, 'c02run', r['binary'], '200000'], cwd=d, stdin=open(ip, 'rb'), timeout=600)
+        rc2, o2, e2 = run3([har, 'run', r['binary'], '200010', '0', '0', '0'], cwd=d, stdin=open(ip, 'rb'), timeout=600)
+        isa, real = o1.decode().strip().split('\n'), o2.decode().strip().split('\n')
+        ck.cov['evaluations'] += 1
+        if isa[0].split()[1] == 'exit' and real[:4] != isa[:4]:
+            ck.violation('whole run of hexsim leaves the ISA trace: isa [%s] impl [%s]' % (isa[0], real[0] if real else rc2), dict(r), tags={'kind': 'run'})
+    else:
+        ck.broken.append('this replay file names neither a step case, an I/O program nor an existing binary')
+    ck.cov['rule'] = 'replay of one recorded finding'
+    ck.finish()
+
+
 def main():
     ck = Check('C02')
     ck.cov['trusted_base'] = ['Coq 8.16.1 kernel + VM (vm_compute)', 'Isa.v as a reading of hexb.pdf (spec)',
@@ -280,8 +318,12 @@ def main():
     ncorpus = len(cases)
     if ck.replay_arg:
         import json
-        cases = [json.load(open(ck.replay_arg))['case']]
-        ncorpus = 1
+        rj = json.load(open(ck.replay_arg))
+        if 'case' in rj:
+            cases = [rj['case']]
+            ncorpus = 1
+        else:
+            replay_whole(ck, rj, hv, har, d)        # a whole-run or I/O-program finding: judged on its own, then finish
     else:
         for byte in range(256):
             for _ in range(per_byte if byte != 0xD3 else per_byte * 40):
